@@ -13,8 +13,11 @@ CONSTANTS
   Mode = "render"
   R2S <- R2Sdef_q_cylp_ren9
   ZStep = 1
+  CentralRule = "halfopen"
+  SpanRule = "whole"
 INVARIANT SingleCorrect
 INVARIANT PeriodicCorrect
+INVARIANT SpanSound
 INVARIANT NoAxisNoDroplet
 INVARIANT RadialCorrect
 INVARIANT RadialHalfCell
